@@ -195,7 +195,8 @@ class DictField(Field):
             raise ValueError("value is required")
 
         if not self._use_proxy:
-            return value
+            # copy: the configuration must not share the caller's dict (or another config's)
+            return dict(value)
 
         return DictProxy(cfg, self, value)
 
